@@ -29,7 +29,7 @@ func NewFeeGrid(n int) *FeeGrid { return &FeeGrid{N: n} }
 
 func (d *FeeGrid) Name() string { return fmt.Sprintf("container-fee-n%d", d.N) }
 func (d *FeeGrid) Rule() string {
-	return "product of ContainerFee {0,1,7} x ContainerAliasFee {0,3} x naming {none,new name,name reused after delete,domain registered in advance} x owner balance {T-1,T,T+1,2T-1,2T} x history {put; put,put; put,setConfig(fee'),put} plus rows where the owner is an Alphabet node; non-trivial = T > 0; distinct by case"
+	return "product of ContainerFee {0,1,7} x ContainerAliasFee {0,3} x naming {none,new name,name reused after delete,domain registered in advance} x owner balance {T-1,T,T+1,2T-1,2T} x history {put; put,put; put,setConfig(fee'),put; put,setConfig(0),put} plus rows where the owner is an Alphabet node; non-trivial = T > 0; distinct by case"
 }
 
 func (d *FeeGrid) Build() *World {
@@ -48,7 +48,7 @@ func (d *FeeGrid) Cases(tier string) []GridCase {
 		for _, al := range []int64{0, 3} {
 			for _, named := range []string{"", "new", "reuse", "prereg"} {
 				for _, bo := range [][2]int64{{1, -1}, {1, 0}, {1, 1}, {2, -1}, {2, 0}} {
-					for _, hist := range []string{"put", "put-put", "put-setfee-put"} {
+					for _, hist := range []string{"put", "put-put", "put-setfee-put", "put-setzero-put"} {
 						add(feeCase{Fee: fee, Alias: al, Named: named, Mul: bo[0], Off: bo[1], Hist: hist})
 					}
 				}
@@ -161,6 +161,13 @@ func (d *FeeGrid) Eval(x *Exec, root *Node, gc GridCase) GridResult {
 		mintTo(big.NewInt(c.Fee * N))
 		must("first put", put(b1, ""))
 		fee, alias = c.Fee+2, c.Alias+1
+		setFee(fee, alias)
+	case "put-setzero-put":
+		b1, _ := mkContainerBlob(owner, nonce)
+		nonce++
+		mintTo(big.NewInt(c.Fee * N))
+		must("first put", put(b1, ""))
+		fee, alias = 0, 0 // the Alphabet makes containers free
 		setFee(fee, alias)
 	}
 	// ---- the measured put ----
